@@ -88,6 +88,10 @@ sp = spec(start="1990/05/01", end="1992/12/30", irr={"method": 1, "kwargs": {"SM
           iwc={"wc_type": "Pct", "method": "Layer", "depth_layer": [1], "value": [50]})
 sp["weather"] = wx(4, sp["start"], sp["end"], "semiarid")
 add("C08", "stale-demand-threshold-irrigation", {"spec": sp}, "C08:daily-rows-differ", "0c225ad")
+# --- C15: weather columns in another order / extra columns
+sp = spec(start="1990/05/01", end="1990/10/30")
+add("C15", "column-order", {"spec": sp, "transforms": [{"op": "permute", "order": [2, 0, 1, 3, 4]}]}, "C15:", "1a3fd8f")
+add("C15", "extra-column-front", {"spec": copy.deepcopy(sp), "transforms": [{"op": "extra_cols", "names": ["Wind"], "pos": "front", "seed": 3}]}, "C15:", "1a3fd8f")
 
 
 def main():
